@@ -85,6 +85,10 @@ type holder struct {
 
 	Mem  int64 // bytes reserved directly through this handle and not yet released
 	Done bool  // Done() was called (direct: the scope was collected)
+
+	// Uncharged is only used to recognise the known finding F4: the connection is open but
+	// accounted in no scope besides its own.
+	Uncharged bool
 }
 
 // dead: the holder itself or an owner up the span tree was closed; a dead holder holds nothing.
@@ -156,6 +160,9 @@ func scopeKind(s string) string {
 func (m *model) charges(h *holder) []string {
 	switch h.Kind {
 	case kConn:
+		if h.Uncharged {
+			return []string{h.selfScope()}
+		}
 		sys, tr := "system", "transient"
 		if h.Allow {
 			sys, tr = "alsystem", "altransient"
